@@ -2,32 +2,32 @@
 (***************************************************************************)
 (* Trace specification for C05 / C06 / C07 (L5).  The harness's scripted   *)
 (* sources log every read call the real parsers make (size of the buffer   *)
-(* offered, source position, what the source answered); each logged call   *)
-(* must be exactly the step MC_Stream's design takes at that point:        *)
-(*   - positions are contiguous and the buffer offered never reaches       *)
-(*     beyond the last octet of header+attributes (no read-ahead,          *)
-(*     whatever the internal read granularity)                             *)
-(*   - no read is made after the end-of-attributes tag or after an error   *)
-(*   - no read is made while the task waits for a deferred wake-up         *)
-(*   - the outcome is the one the design determines: the injected fault's  *)
-(*     kind, UnexpectedEof for a truncated stream, InvalidTag for a        *)
-(*     non-tag byte, success (with the RFC reading checked in Trace_Wire)  *)
-(*     for a well-formed message; success only after every element         *)
-(*   - the payload handed over is exactly the octets after the end tag     *)
-(*   - the async and the blocking parser agree: `cmp` compares the run     *)
-(*     just finished with the reference run (blocking parser, whole        *)
-(*     stream, no faults) on the same octets                               *)
+(* offered, source position, what the source answered).  The bookkeeping   *)
+(* of a run (positions, what the source answered, wake-ups) is checked for *)
+(* every property; what is DEMANDED of the code depends on the property    *)
+(* being decided (constant Prop) - a check must not fail for a defect that *)
+(* leaves its own property intact:                                         *)
+(*   C05  `cmp`: the run just finished and the reference run (blocking     *)
+(*        parser on the same octets) have the same outcome - same message  *)
+(*        and payload, or the same kind of error                           *)
+(*   C06  on well-formed messages: no buffer offered to the source reaches *)
+(*        beyond the end-of-attributes tag, whatever the internal read     *)
+(*        granularity; the parse succeeds having consumed exactly up to    *)
+(*        that tag; the payload handed over is exactly the octets after    *)
+(*        it; `cmp`: the result does not depend on fragmentation           *)
+(*   C07  a cut stream is an error; an injected I/O fault surfaces as an   *)
+(*        error of its kind; nothing panics or hangs                       *)
 (* Events: msg (sets the element sequence computed by the independent      *)
 (* tokenizer), begin, read, wake, done, cmp.                               *)
 (***************************************************************************)
 EXTENDS IppModel, IppBytes, TLC, Json, IOUtils
-CONSTANTS NestingDomain
+CONSTANTS NestingDomain, Prop
 
 Rec == ndJsonDeserialize(IOEnv.TRACE)
 VARIABLES l, m, mode, isref, ei, got, pos, faulted, eof, waiting, running, last
 vars == <<l, m, mode, isref, ei, got, pos, faulted, eof, waiting, running, last>>
 
-NoOut == [ok |-> FALSE, err |-> "none"]
+NoOut == [ok |-> FALSE, err |-> "none", pay |-> FALSE]
 Init == /\ l = 1 /\ m = [elems |-> <<>>, avail |-> 0, endv |-> 0, limit |-> 0, term |-> "", wf |-> FALSE]
         /\ mode = "" /\ isref = FALSE /\ ei = 1 /\ got = 0 /\ pos = 0 /\ faulted = "" /\ eof = FALSE /\ waiting = FALSE
         /\ running = FALSE /\ last = [ref |-> NoOut, cur |-> NoOut]
@@ -36,7 +36,8 @@ SameErr(a, b) == /\ a.err = b.err
                  /\ (a.err = "InvalidTag" => a.tag = b.tag)
                  /\ (a.err = "Io" => a.kind = b.kind)
 SameOutcome(a, b) == /\ a.ok = b.ok
-                     /\ IF a.ok THEN (IF "msg" \in DOMAIN a /\ "msg" \in DOMAIN b THEN a.msg = b.msg ELSE TRUE)
+                     /\ IF a.ok THEN /\ (IF "msg" \in DOMAIN a /\ "msg" \in DOMAIN b THEN a.msg = b.msg ELSE TRUE)
+                                     /\ a.pay = b.pay              \* the trailing document octets
                         ELSE SameErr(a, b)
 
 (* is the outcome of a fault-free run fixed by RFC 8010?  (every token before the terminating
@@ -55,16 +56,14 @@ Begin(e) == /\ ~running /\ e.mode \in {"sync", "async"}
             /\ mode' = e.mode /\ isref' = (IF "ref" \in DOMAIN e THEN e.ref ELSE FALSE) /\ ei' = 1 /\ got' = 0 /\ pos' = 0 /\ faulted' = "" /\ eof' = FALSE
             /\ waiting' = FALSE /\ running' = TRUE
             /\ UNCHANGED <<m, last>>
-(* A read call.  Property level (C06): positions are contiguous and the buffer offered to the  *)
-(* source never reaches beyond the last octet that belongs to header+attributes (`limit`: the  *)
-(* end tag, or the non-tag byte that ends parsing) - whatever the internal read granularity.   *)
-(* The design (MC_Stream) offers exactly the rest of the current element; `exact` records      *)
-(* whether the code still does (reported in the evidence as spec drift, not as a violation).   *)
+(* A read call.  C06: on a well-formed message the buffer offered to the source never reaches  *)
+(* beyond the last octet that belongs to header+attributes (`limit`), whatever the internal    *)
+(* read granularity.  The rest is bookkeeping of the scripted source.                          *)
 Read(e) ==
-  /\ running /\ ~waiting /\ faulted = "" /\ ~eof
+  /\ running /\ ~waiting
   /\ e.pos = pos
   /\ e.want >= 1
-  /\ pos + e.want <= m.limit                             \* no read-ahead, nothing read after the end
+  /\ (Prop = "C06" => pos + e.want <= m.limit)           \* no read-ahead, nothing read after the end
   /\ CASE e.r = "got" ->
             /\ e.n >= 1 /\ e.n <= e.want /\ pos + e.n <= m.avail
             /\ pos' = pos + e.n
@@ -76,26 +75,28 @@ Read(e) ==
        [] e.r = "intr" ->
             /\ mode = "sync" /\ UNCHANGED <<pos, faulted, eof, waiting>>
        [] e.r = "err" ->
-            /\ faulted' = e.kind /\ UNCHANGED <<pos, eof, waiting>>
+            /\ faulted' = (IF faulted = "" THEN e.kind ELSE faulted) /\ UNCHANGED <<pos, eof, waiting>>
   /\ UNCHANGED <<m, mode, isref, ei, got, running, last>>
 WakeUp(e) == /\ running /\ waiting /\ waiting' = FALSE
              /\ UNCHANGED <<m, mode, isref, ei, got, pos, faulted, eof, running, last>>
+Demand(e, o) ==
+  CASE Prop = "C06" ->
+         (m.term = "end" /\ m.wf /\ faulted = "" /\ ~eof) =>
+            (o.ok /\ pos = m.endv /\ e.pay_ok /\ e.reach <= m.endv)
+    [] Prop = "C07" ->
+         /\ (faulted # "" => (IF o.ok THEN FALSE ELSE (IF o.err = "Io" THEN o.kind = faulted ELSE FALSE)))   \* the fault, with its kind
+         /\ ((faulted = "" /\ (eof \/ m.term = "trunc")) => ~o.ok)               \* a cut stream is never accepted
+         /\ (IF o.ok THEN TRUE ELSE o.err \notin {"PANIC", "HANG"})
+    [] OTHER -> TRUE                                                              \* C05 is decided by `cmp`
 Done(e) ==
   /\ running /\ ~waiting
   /\ e.consumed = pos
-  /\ e.reach <= (IF m.endv > 0 THEN m.endv ELSE m.avail + 65535)
-  /\ LET o == e.out IN
-     IF faulted # "" THEN ~o.ok /\ o.err = "Io" /\ o.kind = faulted
-     ELSE IF eof THEN ~o.ok /\ o.err = "Io" /\ o.kind = "UnexpectedEof"
-     ELSE /\ o.ok => (m.term = "end" /\ pos = m.endv /\ e.pay_ok)
-          /\ (m.term = "bad" /\ m.wf) => (~o.ok /\ o.err = "InvalidTag" /\ pos = m.limit)
-          /\ (m.term = "end" /\ m.wf) => o.ok
-          /\ m.term = "trunc" => ~o.ok
-          /\ (IF o.ok THEN TRUE ELSE o.err \notin {"PANIC", "HANG"})
-  /\ last' = [ref |-> (IF isref THEN e.out ELSE last.ref), cur |-> e.out]
+  /\ Demand(e, e.out)
+  /\ LET o == [x \in (DOMAIN e.out) \cup {"pay"} |-> IF x = "pay" THEN e.pay_ok ELSE e.out[x]] IN
+     last' = [ref |-> (IF isref THEN o ELSE last.ref), cur |-> o]
   /\ running' = FALSE
   /\ UNCHANGED <<m, mode, isref, ei, got, pos, faulted, eof, waiting>>
-Cmp(e) == /\ ~running /\ SameOutcome(last.ref, last.cur)
+Cmp(e) == /\ ~running /\ (Prop \in {"C05", "C06"} => SameOutcome(last.ref, last.cur))
           /\ UNCHANGED <<m, mode, isref, ei, got, pos, faulted, eof, waiting, running, last>>
 
 Step(e) == CASE e.ev = "msg"   -> Msg(e)
